@@ -277,6 +277,9 @@ func stage2(k *chainkit.Kit, dir, bf string, res *ChildRes, write func(), all bo
 	n := 0
 	var mu sync.Mutex
 	capture := func(name string) {
+		if notCrashPoint(name) {
+			return
+		}
 		mu.Lock()
 		defer mu.Unlock()
 		cnt[name]++
